@@ -459,16 +459,27 @@ func (g *Gen) applyFuncSpecWith(st *State, fs *FuncSpec, fn *ssa.Function, args 
 			}
 		}
 	}
-	defer func() {
-		// lock hand-over declared by the callee
+	// lock hand-over declared by the callee: applied after its precondition was checked and before its
+	// postcondition is assumed (the postcondition speaks about the state after the hand-over)
+	var handover func()
+	{
 		lctx := &specCtx{g: g, st: st, old: st, binds: binds, calleeOnly: true}
+		var rel, acq []string
 		for _, e := range fs.Releases {
-			st.held[g.heldKeyOfExpr(lctx, e)] = "false"
+			rel = append(rel, g.heldKeyOfExpr(lctx, e))
 		}
 		for _, e := range fs.Acquires {
-			st.held[g.heldKeyOfExpr(lctx, e)] = "true"
+			acq = append(acq, g.heldKeyOfExpr(lctx, e))
 		}
-	}()
+		handover = func() {
+			for _, k := range rel {
+				st.held[k] = "false"
+			}
+			for _, k := range acq {
+				st.held[k] = "true"
+			}
+		}
+	}
 	for _, e := range fs.Releases {
 		lctx := &specCtx{g: g, st: st, old: st, binds: binds, calleeOnly: true}
 		g.oblige(st, "lock", "call "+fs.Name+" releases", "call "+fs.Name+": the lock it releases is held", g.heldTerm(st, g.heldKeyOfExpr(lctx, e)))
@@ -477,6 +488,7 @@ func (g *Gen) applyFuncSpecWith(st *State, fs *FuncSpec, fn *ssa.Function, args 
 		pkg:  fn.Pkg,
 		what: "call " + fs.Name, binds: binds, requires: fs.Requires, ensures: ens, mod: fs.Modifies, pure: pure, havocAll: havoc,
 		rt: rt, resultNames: rn, clausePrefix: "call " + fs.Name + " ", calleeGhosts: fs.Ghosts, mutGhosts: mut, preserves: fs.Preserves,
+		handover: handover,
 	}
 	if extra != nil && fs.Modifies == nil && !fs.Pure && len(fs.Preserves) == 0 && (extra.Pure || extra.Modifies != nil || len(extra.Preserves) > 0) {
 		// the callee's own contract says nothing about its frame: the call-site clause's frame is used (an assumption, listed)
@@ -513,6 +525,7 @@ func (g *Gen) applyFuncSpecWith(st *State, fs *FuncSpec, fn *ssa.Function, args 
 }
 
 type contractApp struct {
+	handover     func() // lock hand-over, applied between the precondition and the postcondition
 	what         string
 	binds        map[string]Val
 	requires     []*Clause
@@ -533,7 +546,36 @@ type contractApp struct {
 	extra        *CalleeSpec // call-site additions on top of a function contract (mixed naming context)
 }
 
+// callVacuity: a contract applied at a call site adds assumptions (the callee's postcondition, call-site ensures,
+// type facts of results).  If they contradict the state, everything after the call would be "proved" vacuously.
+// Two reachability checks are recorded, before and after the call; the driver reports the call when the point
+// before it is reachable and the point after it is not.
+func (g *Gen) callVacuity(st *State, what, when string, pre *Obligation) *Obligation {
+	if g.discovery || g.unroll > 0 || st.pc == "false" {
+		return nil
+	}
+	fnName := g.rootFn.RelString(g.rootFn.Pkg.Pkg)
+	pos := g.posStr(g.curPos)
+	site := fmt.Sprintf("%s/vacuity-call-%s@%s", fnName, when, pos)
+	g.oblCount[site]++
+	o := &Obligation{Name: fmt.Sprintf("%s#%d", site, g.oblCount[site]), Clause: fnName + " :: vacuity:call", Kind: "vacuity", Pos: pos, Src: g.W.sourceLine(g.curPos),
+		Func: fnName, Desc: "reachable " + when + " " + what, prefix: len(g.lines), pc: st.pc, goal: "false", Vacuity: true}
+	if pre != nil {
+		o.VacPre = pre.Name
+	}
+	g.obls = append(g.obls, o)
+	return o
+}
+
 func (g *Gen) applyContract(st *State, a contractApp) Val {
+	if len(a.ensures) > 0 || (a.extra != nil && len(a.extra.Ensures) > 0) {
+		preOb := g.callVacuity(st, a.what, "before", nil)
+		defer func() {
+			if preOb != nil {
+				g.callVacuity(st, a.what, "after", preOb)
+			}
+		}()
+	}
 	pre := st.clone()
 	ctx := &specCtx{g: g, st: st, old: pre, binds: a.binds, calleeOnly: !a.ownNames, pkg: a.pkg}
 	if a.ownNames {
@@ -617,6 +659,9 @@ func (g *Gen) applyContract(st *State, a contractApp) Val {
 			st.ghosts[n] = v
 			g.noteGhostWrite(n)
 		}
+	}
+	if a.handover != nil {
+		a.handover()
 	}
 	ectx := &specCtx{g: g, st: st, old: pre, binds: a.binds, results: results, resultNames: a.resultNames, calleeOnly: !a.ownNames || a.extra != nil, oldIsPre: true, pkg: a.pkg}
 	for _, c := range a.ensures {
